@@ -23,6 +23,9 @@ thread_local! {
     static READS: Cell<u64> = const { Cell::new(0) };
     static TICKS_TOTAL: Cell<u64> = const { Cell::new(0) };
     static LOG_ON: Cell<bool> = const { Cell::new(true) };
+    /// How far the wall clock (CLOCK_REALTIME) lags behind virtual time: a backward step of
+    /// the system clock (an NTP correction, an operator) while the monotonic clock runs on.
+    static WALL_BACK: Cell<u64> = const { Cell::new(0) };
     static LOG: RefCell<Vec<u64>> = const { RefCell::new(Vec::new()) };
 }
 
@@ -43,7 +46,13 @@ pub fn enable(start_ns: u64, base: u64, jitter: u64, seed: u64) {
 }
 
 /// Turn the virtual clock off for this thread.
+/// Step the wall clock back by `ns` (virtual and monotonic time are not affected).
+pub fn step_wall_clock_back(ns: u64) {
+    WALL_BACK.with(|c| c.set(c.get() + ns));
+}
+
 pub fn disable() {
+    WALL_BACK.with(|c| c.set(0));
     ENABLED.with(|c| c.set(false));
 }
 
@@ -142,7 +151,10 @@ fn serve() -> u64 {
 pub unsafe extern "C" fn clock_gettime(clk: libc::clockid_t, ts: *mut libc::timespec) -> libc::c_int {
     let enabled = ENABLED.try_with(Cell::get).unwrap_or(false);
     if enabled && !ts.is_null() {
-        let now = serve();
+        let mut now = serve();
+        if clk == libc::CLOCK_REALTIME || clk == libc::CLOCK_REALTIME_COARSE {
+            now = now.saturating_sub(WALL_BACK.try_with(Cell::get).unwrap_or(0));
+        }
         (*ts).tv_sec = (now / 1_000_000_000) as libc::time_t;
         (*ts).tv_nsec = (now % 1_000_000_000) as libc::c_long;
         0
